@@ -707,15 +707,17 @@ func (s stringT) Set(k, v Value)            { panic("unsupported") }
 func (s stringT) Len() int                  { return len(s) }
 func (s stringT) Range() func() (Value, Value, bool) {
 	var r []rune
-	for _, v := range s {
+	var offs []int
+	for i, v := range s {
 		r = append(r, v)
+		offs = append(offs, i)
 	}
 	n := 0
 	return func() (Value, Value, bool) {
 		if n >= len(r) {
 			return Nil(), Nil(), false
 		}
-		k, v := Int(n), r[n]
+		k, v := Int(offs[n]), r[n]
 		n++
 		return k, Int32(v), true
 	}
